@@ -130,6 +130,7 @@ def xr_inplace_binop(ex, op, a, b):
 
 def mk_cfg():
     cfg = Cfg("real")
+    cfg.warn_raises = True        # a warning may be escalated to an exception (filter "error"): an assignment that ends that way is a failed assignment too
     cfg.lib_overrides[("opaque_attr", "DataArray")] = xr_attr
     cfg.lib_overrides[("getitem", "DataArray.sizes")] = xr_sizes_getitem
     cfg.lib_overrides[("contains", "DataArray.coords")] = xr_coords_contains
@@ -260,27 +261,31 @@ def replay_op(attr_name, cls, allowed, op_code, photon=False):
         pre = {"empty": "pass", "full": f"c._array = np.ones(({rows}, {cols}), dtype={old_dt!r})",
                "3d": f"c._array = N.make_value('xr', shape=(2, {rows}, {cols}))"}[w["pre"]]
         return {"code": f"""
-import numpy as np, c13_native as N
+import numpy as np, warnings, c13_native as N
 VIOLATED, DETAIL = False, 'no candidate value broke the representation invariant'
 cands = [{native_value(w)}, np.ones(({rows}, {cols})), np.ones((2, {rows}, {cols})), np.ones(({rows}, {cols}), dtype=complex), np.ones((1, {cols})), np.ones(({rows}, {cols}), dtype=np.uint16),
-         np.ones(({rows}, {cols}), dtype=np.int64), np.ones({cols}), 1.5, np.float32(2.0)]
-for value in cands:
+         np.ones(({rows}, {cols}), dtype=np.int64), np.ones({cols}), 1.5, np.float32(2.0), -np.ones(({rows}, {cols})), N.make_value('xr', shape=(2, {rows}, {cols})) - 5.0]
+for strict in (False, True):                  # warnings ignored / escalated to errors (python -W error): a raising assignment changes nothing either way
+  for value in cands:
     det = N.detector({rows}, {cols}, kind={'"MKID"' if attr_name == 'phase' else '"CCD"'})
     c = det.{attr_name}
     {pre}
     before = c._array
     before_copy = None if before is None else before.copy()
     raised = None
-    try:
-    {op_code}
-    except Exception as e:
-        raised = e
+    with warnings.catch_warnings():
+        warnings.simplefilter('error' if strict else 'ignore')
+        try:
+        {op_code}
+        except Exception as e:
+            raised = e
     ok, what = N.rep(c, {rows}, {cols}, {tuple(allowed)!r}, photon={photon})
     same = (c._array is before) and (before is None or bool(np.array_equal(np.asarray(before), np.asarray(before_copy))))
     if (not ok) or (raised is not None and not same):
         VIOLATED = True
-        DETAIL = 'after op on {cls} (pre={w["pre"]}, value=' + repr(getattr(value, 'shape', value)) + '/' + str(getattr(value, 'dtype', type(value).__name__)) + '): container holds ' + what + ('; raised ' + repr(raised) + (' and content changed' if not same else '') if raised else '')
+        DETAIL = ('warnings as errors: ' if strict else '') + 'after op on {cls} (pre={w["pre"]}, value=' + repr(getattr(value, 'shape', value)) + '/' + str(getattr(value, 'dtype', type(value).__name__)) + '): container holds ' + what + ('; raised ' + repr(raised) + (' and content changed' if not same else '') if raised else '')
         break
+  if VIOLATED: break
 """, "expect": f"{cls} keeps its representation invariant"}
     return mk
 
